@@ -165,6 +165,15 @@ def run_linear(ctx, idx0):
                         ctx.ev('monotone')
                         if trace.nonincreasing(rs) is not None:
                             ctx.violation('landweber', cfg + ';omega=default;start=' + direction, 'monotone:residual-increased', at=trace.nonincreasing(rs))
+                    # documented: maxiter=None iterates until the stopping rule fires
+                    np.random.seed(idx + 11)
+                    ctx.ev('opnorm')
+                    try:
+                        est = odl.power_method_opnorm(A, maxiter=None)
+                        if est > nrm * (1 + 1e-9):
+                            ctx.violation('power_method_opnorm', cfg + ';maxiter=None', 'opnorm-exceeds-true-norm', est=float(est), true=nrm)
+                    except Exception as e:
+                        ctx.violation('power_method_opnorm', cfg + ';maxiter=None', 'raises:' + type(e).__name__, message=str(e)[:200])
                     np.random.seed(idx)
                     est = odl.power_method_opnorm(A, maxiter=2000, rtol=1e-12)
                     if not (nrm * (1 - 1e-3) <= est <= nrm * (1 + 1e-9)) and cc == 'well':
